@@ -179,7 +179,8 @@ func (c *monC18) After(m *Machine, s *Step) *Violation {
 			if op.F && s.Secret != "" && recoveryInList(s.Pre.Users[who].RecoveryCodes, s.Secret) && recoveryInList(post.Users[who].RecoveryCodes, s.Secret) {
 				return violation("C18", sig("session-without-consumption"), "2FA login of %q by recovery code issued a session but the code is still in storage", who)
 			}
-			if op.K == "totpvalidate" && !op.F && m.C.Cfg.OneTimeTOTP && loggedIn && post.Users[who].TOTPLastCode != strings.TrimSpace(s.Secret) {
+			// (a session that the remember middleware issued on the way in says nothing about the code)
+			if op.K == "totpvalidate" && !op.F && m.C.Cfg.OneTimeTOTP && loggedIn && m.rotationOwner(s) != after && post.Users[who].TOTPLastCode != strings.TrimSpace(s.Secret) {
 				return violation("C18", sig("session-without-consumption")+":totp-last-code", "with replay protection on, TOTP login of %q issued a session but the used code was not saved as spent (stored last code %q)", who, post.Users[who].TOTPLastCode)
 			}
 		case "recend":
